@@ -39,6 +39,10 @@ type Case struct {
 	FailIdx    int      `json:"fail_idx"`   // index in Levels[StartLevel]
 	Close      bool     `json:"close"`      // call Close after a successful Start
 	Lookups    []string `json:"lookups"`    // names resolved from the deepest level after start
+	// EarlyLookups: resolve every name from every container after each single Register call
+	EarlyLookups bool `json:"early_lookups"`
+	// RegOrder: order in which the containers register their components (indices into Levels)
+	RegOrder []int `json:"reg_order,omitempty"`
 }
 
 // ---- harness components ------------------------------------------------------------
@@ -212,11 +216,36 @@ func run(c Case) (vstat.Outcome, error) {
 	}
 	l := &logT{}
 	apps := make([]*app.App, len(c.Levels))
+	// all containers exist from the start (a child may be asked for a name before it, or a
+	// nearer parent, registers its own component of that name)
 	for lv := range c.Levels {
 		if lv == 0 {
 			apps[lv] = new(app.App)
 		} else {
 			apps[lv] = apps[lv-1].ChildApp()
+		}
+	}
+	// registered-so-far view used by the interleaved lookups
+	partial := Case{Levels: make([][]Comp, len(c.Levels))}
+	lookupNames := append(append([]string(nil), c.Lookups...), names...)
+	checkLookups := func(when string) error {
+		for lv := range apps {
+			for _, n := range lookupNames {
+				if got, want := ident(apps[lv].Component(n)), refResolve(partial, lv, n); got != want {
+					return fmt.Errorf("%s: level %d Component(%q) = %s, want %s (child first, then parents, over what is registered so far)", when, lv, n, got, want)
+				}
+			}
+		}
+		return nil
+	}
+	order := c.RegOrder
+	for lv := range c.Levels {
+		if len(order) > 0 {
+			// generated registration order of the levels: deepest first, root first, ...
+			lv = order[lv%len(order)] % len(c.Levels)
+		}
+		if len(partial.Levels[lv]) > 0 {
+			continue
 		}
 		for i, cm := range c.Levels[lv] {
 			fail := 0
@@ -227,6 +256,27 @@ func run(c Case) (vstat.Outcome, error) {
 				}
 			}
 			apps[lv].Register(mk(cm, lv, l, fail))
+			partial.Levels[lv] = append(partial.Levels[lv], cm)
+			if c.EarlyLookups {
+				if err := checkLookups(fmt.Sprintf("after registering %d:%s", lv, cm.Name)); err != nil {
+					return out, err
+				}
+			}
+		}
+	}
+	for lv := range c.Levels { // levels skipped by a repeating order
+		if len(partial.Levels[lv]) == 0 && len(c.Levels[lv]) > 0 {
+			for i, cm := range c.Levels[lv] {
+				fail := 0
+				if lv == c.StartLevel && c.FailIdx == i {
+					fail = c.FailPhase
+					if fail == 2 && !cm.Runnable {
+						fail = 0
+					}
+				}
+				apps[lv].Register(mk(cm, lv, l, fail))
+				partial.Levels[lv] = append(partial.Levels[lv], cm)
+			}
 		}
 	}
 	// normalise: a run failure on a plain component cannot happen
@@ -334,6 +384,9 @@ func run(c Case) (vstat.Outcome, error) {
 	if len(wantCloseErrs) > 0 {
 		out.Classes = append(out.Classes, "close-error")
 	}
+	if c.EarlyLookups && len(c.Levels) > 1 {
+		out.Classes = append(out.Classes, "lookup-before-shadowing-registration")
+	}
 	return out, nil
 }
 
@@ -418,6 +471,8 @@ func genCase(rt *rapid.T) Case {
 	c.FailIdx = rapid.IntRange(0, 6).Draw(rt, "failIdx")
 	c.Close = rapid.Bool().Draw(rt, "close")
 	c.Lookups = rapid.SliceOfN(rapid.SampledFrom(append([]string{"zz"}, names...)), 0, 4).Draw(rt, "lookups")
+	c.EarlyLookups = rapid.Bool().Draw(rt, "early")
+	c.RegOrder = rapid.Permutation([]int{0, 1, 2}).Draw(rt, "regOrder")
 	return c
 }
 
